@@ -153,7 +153,7 @@ impl Scenario for EcdsaNet {
                     if slots == 0 {
                         continue;
                     }
-                    let pairing = *rng.pick(&["right", "right", "right", "other_msg", "other_hash", "other_key", "neg_key"]);
+                    let pairing = *rng.pick(&["right", "right", "right", "right", "other_msg", "other_hash", "other_key", "neg_key", "offcurve_key"]);
                     events.push(json!({"op": "deliver", "slot": rng.below(slots), "pairing": pairing, "verifier": *rng.pick(&["verify_digest", "verify_hashbuf", "sig_verify_message", "pk_verify_message", "is_valid_message"]),
                         "other_key": gen_key(rng), "flip": rng.below(1 << 16), "other_encoding": rng.chance(1, 3), "wire": *rng.pick(&["", "", "der", "compact"])}));
                 }
@@ -515,7 +515,8 @@ impl Scenario for EcdsaNet {
                     if fixed_sha256 {
                         hash = "sha256".into();
                     }
-                    let expect = msg == sl.msg && hash == sl.hash && vkey == sl.key;
+                    let offcurve = pairing == "offcurve_key";
+                    let expect = msg == sl.msg && hash == sl.hash && vkey == sl.key && !offcurve;
                     ctx.event(seq, "deliver", &format!("{}/{}/{}", pairing, verifier, expect));
                     ctx.fault("replay");
                     ctx.probe("replayed");
@@ -524,7 +525,19 @@ impl Scenario for EcdsaNet {
                     if jbool(ev, "other_encoding") {
                         ctx.probe("verify_with_other_key_encoding");
                     }
-                    let pkb = rf::pubkey_of(&vkey, enc).unwrap();
+                    let mut pkb = rf::pubkey_of(&vkey, enc).unwrap();
+                    if offcurve {
+                        // a well-formed SEC1 encoding whose x is not on the curve (the constructor only looks at the format): nothing
+                        // verifies under it, however often it is presented and whatever was verified before
+                        pkb = rf::pubkey_of(&vkey, true).unwrap();
+                        let mut tries = 0;
+                        while rf::point_from_sec1(&pkb).is_some() && tries < 64 {
+                            pkb[32] = pkb[32].wrapping_add(1);
+                            tries += 1;
+                        }
+                        ctx.fault("mispair:key");
+                        ctx.probe("verified_under_off_curve_key");
+                    }
                     let pk = match PublicKey::from_bytes(&pkb) {
                         Ok(p) => p,
                         Err(_) => {
@@ -548,13 +561,20 @@ impl Scenario for EcdsaNet {
                         ctx.probe(if travelled.is_some() { "signature_travelled_as_bytes" } else { "signature_bytes_not_reparsed" });
                     }
                     let sig = travelled.as_ref().unwrap_or(&sl.sig);
-                    let got = guard(|| match verifier {
-                        "verify_hashbuf" => ECDSA::verify_hashbuf(&digest, &pk, sig).unwrap_or(false),
-                        "sig_verify_message" => sig.verify_message(&msg, &pk),
-                        "pk_verify_message" => pk.verify_message(&msg, sig).unwrap_or(false),
-                        "is_valid_message" => pk.is_valid_message(&msg, sig),
-                        _ => ECDSA::verify_digest(&msg, &pk, sig, he).unwrap_or(false),
-                    });
+                    // an off-curve key is presented twice in a row (the second call meets whatever the first one left behind)
+                    let mut got = guard(|| false);
+                    for _ in 0..if offcurve { 2 } else { 1 } {
+                        got = guard(|| match verifier {
+                            "verify_hashbuf" => ECDSA::verify_hashbuf(&digest, &pk, sig).unwrap_or(false),
+                            "sig_verify_message" => sig.verify_message(&msg, &pk),
+                            "pk_verify_message" => pk.verify_message(&msg, sig).unwrap_or(false),
+                            "is_valid_message" => pk.is_valid_message(&msg, sig),
+                            _ => ECDSA::verify_digest(&msg, &pk, sig, he).unwrap_or(false),
+                        });
+                        if !matches!(got, Ok(false)) {
+                            break;
+                        }
+                    }
                     let got = match got {
                         Ok(g) => g,
                         Err(p) => {
